@@ -1,6 +1,6 @@
 """C18 — written output is fully determined by the input, never by the buffer's old bytes (structural clauses)."""
 from mirlib import *
-import t_writeonly, r_handle, r_strsafe, p_c09, p_c10, r_kernel, r_dim
+import t_writeonly, r_handle, r_strsafe, p_c09, p_c10, r_kernel, r_dim, r_utf8enc
 
 MANIFEST = {
     'category': 'other',
@@ -19,7 +19,7 @@ MANIFEST = {
             'destination stride, every continuing iteration over single units stores the current source unit into the current destination '
             'slot, zipped parts are the same part of slices cut to the same length, and the counter advances by exactly the element width. '
             'That the stride functions themselves (SIMD pack/unpack, array copies) write all 16 units is SIMD/array semantics and trusted. ' 
-            '(R-DIM) dimension inference over the index arithmetic of the slice-to-slice converters (no sum or difference mixes a source and a destination quantity; each buffer indexed with its own quantities; (read, written) = (source, destination) quantity; a path that advances the source position and returns has produced output; inside a loop that walks a buffer with a loop-carried position every index into that buffer depends arithmetically on such a position).',
+            '(R-DIM) dimension inference over the index arithmetic of the slice-to-slice converters (no sum or difference mixes a source and a destination quantity; each buffer indexed with its own quantities; (read, written) = (source, destination) quantity; a path that advances the source position and returns has produced output; inside a loop that walks a buffer with a loop-carried position every index into that buffer depends arithmetically on such a position). (R-UTF8ENC) the hand-written UTF-8 to UTF-8 encoder copies the longest prefix that fits and ends on a character boundary: the whole input with (InputEmpty, n, n) when it fits; otherwise the boundary search starts at exactly dst.len(), steps back by one over continuation bytes only, and the cut t is both what is copied (dst[..t] <- src[..t]) and what is reported (OutputFull, t, t). ',
     'note': 'Trusted: rustc MIR, mirx, rule library.',
     'technique': 'information-flow rule (no loads from output memory) over all MIR bodies + handle typestate + set_len shape rules',
 }
@@ -48,6 +48,7 @@ def run(rep, facts, tier):
                         rep.ob('C18-D4', name, ok, 'minimally_init is applied to something other than vec.spare_capacity_mut()', sp_str(b.blocks[bi]['tsp']), None, c)
             rep.floor('C18-D4', 'minimally_init call sites', len(mi), 6, c)
         p_c09.write_ncr(rep, f, c)
+        r_utf8enc.run(rep, f, c)
         r_kernel.run(rep, f, c, 'R-KERNEL', ['copy'], stride=True)
         for sink in ('utf8', 'utf16'):
             p_c10.helpers(rep, f, c, sink)
